@@ -174,6 +174,8 @@ func c16Parsers(c *run.C) {
 			m.Fail, m.FailErr = k, mon.ErrVisitor
 			var err error
 			sizes := [][]int{nil, {1}, {3, 1, 7}}[(k+entry)%3]
+			// half of the reader runs return the last bytes together with io.EOF
+			eofWithData := (k/3+entry)%2 == 0
 			// The caller of a pull decoder or of Parser.Write sees the error
 			// and may still make its next call (the next Next of its read
 			// loop, the next Write of an io.Copy): the property promises that
@@ -197,11 +199,11 @@ func c16Parsers(c *run.C) {
 				case 0:
 					err = cd.Parse(doc, m.WithRefs())
 				case 1:
-					_, err = cd.ParseReader(&mon.ChunkReader{Data: doc, Sizes: sizes}, m.WithRefs())
+					_, err = cd.ParseReader(&mon.ChunkReader{Data: doc, Sizes: sizes, EOFWithData: eofWithData}, m.WithRefs())
 				case 2:
 					again(cd.NewBytesDecoder(doc, m.WithRefs()))
 				case 3:
-					again(cd.NewDecoder(&mon.ChunkReader{Data: doc, Sizes: sizes}, 16, m.WithRefs()))
+					again(cd.NewDecoder(&mon.ChunkReader{Data: doc, Sizes: sizes, EOFWithData: eofWithData}, []int{16, 1, 4096}[k%3], m.WithRefs()))
 				default:
 					p := cd.NewParser(m.WithRefs())
 					for _, ch := range mon.Chunks(doc, sizes) {
@@ -228,7 +230,7 @@ func c16Parsers(c *run.C) {
 				return
 			}
 			c.Observe("parser_fault_runs", 1)
-			what := fmt.Sprintf("%s entry %d (sizes %v), visitor failing at event %d of %d", cd.Name, entry, sizes, k, E)
+			what := fmt.Sprintf("%s entry %d (sizes %v, eofWithData %v), visitor failing at event %d of %d", cd.Name, entry, sizes, eofWithData, k, E)
 			if err == nil || err == io.EOF {
 				c.Violationf("visitor-error-lost", fmt.Sprintf("%s:visitor-error-lost:entry%d", cd.Name, entry), "%s: returned %v\ndoc=%s\nevents=%s", what, err, hexs(doc), m0.Events)
 				return
